@@ -79,6 +79,10 @@ def reachLegacyFam (p : Profile) (enc peer : Codec) (attrs : List Attr) (es0 : L
     have h16 := hc.hmax16
     exact parseUpdate_reach_legacy od peer ab fin P a _ (enc.addpathTx Fam.ipv4) hc.hrx ha
       (take_ne_nil hr hpos) (hS.take _) (by omega)
+  hstruct := by
+    intro r _ _
+    have h16 := hc.hmax16
+    exact reach_legacy_struct ab fin P a _ ha (by omega)
 
 /-! ### MP_REACH_NLRI -/
 
@@ -144,6 +148,20 @@ def reachMpFam (p : Profile) (enc peer : Codec) (f : Fam) (v6 : Bool) (attrs : L
       (by rw [encRaw_mpReach]
           simp only [List.length_append, be16_length, List.length_cons, List.length_nil, mpReachVal]
           omega)
+  hstruct := by
+    intro r hr hS
+    have hpos : 0 < fitN enc.maxLen (17 + ap4 (enc.addpathTx f)) (enc.addpathTx f) (23 + ab.length + 4 + (5 + nh.bytes.length)) r := by
+      cases r with
+      | nil => exact absurd rfl hr
+      | cons e rest => exact fitN_pos _ _ _ _ e rest hfit
+    have hb := fitN_bound enc.maxLen (17 + ap4 (enc.addpathTx f)) (enc.addpathTx f) (23 + ab.length + 4 + (5 + nh.bytes.length)) r
+      (by intro e he; have := encE_le_of_ip (ap := enc.addpathTx f) hS e he; have := alenOf_le v6; omega) hpos
+    have h16 := hc.hmax16
+    have hnl := (nhMp_bytes nh hnh).1
+    exact reach_mp_struct f ab fin P nh.bytes _ (by rcases hnl with h | h <;> omega)
+      (by rw [encRaw_mpReach]
+          simp only [List.length_append, be16_length, List.length_cons, List.length_nil, mpReachVal]
+          omega)
 
 /-! ### withdrawals -/
 
@@ -168,7 +186,7 @@ def unreachLegacyFam (p : Profile) (enc peer : Codec) (es0 : List Entry)
       cases r with
       | nil => exact absurd rfl hr
       | cons e rest => exact fitN_pos _ _ _ _ e rest hfit
-    have hb := fitN_bound enc.maxLen (5 + 2 + ap4 (enc.addpathTx Fam.ipv4)) (enc.addpathTx Fam.ipv4) 21 r
+    have hb := fitN_bound_slack enc.maxLen (5 + 2 + ap4 (enc.addpathTx Fam.ipv4)) 2 (enc.addpathTx Fam.ipv4) 21 r
       (by intro e he; have := encE_le_of_ip (ap := enc.addpathTx Fam.ipv4) hS e he; simp [alenOf] at this; omega) hpos
     exact doEncode_unreach_legacy p enc es0 r hleg (encOk_of_ip false r hS) _ _ rfl rfl (by omega)
   hpos := by
@@ -182,7 +200,7 @@ def unreachLegacyFam (p : Profile) (enc peer : Codec) (es0 : List Entry)
       cases r with
       | nil => exact absurd rfl hr
       | cons e rest => exact fitN_pos _ _ _ _ e rest hfit
-    have hb := fitN_bound enc.maxLen (5 + 2 + ap4 (enc.addpathTx Fam.ipv4)) (enc.addpathTx Fam.ipv4) 21 r
+    have hb := fitN_bound_slack enc.maxLen (5 + 2 + ap4 (enc.addpathTx Fam.ipv4)) 2 (enc.addpathTx Fam.ipv4) 21 r
       (by intro e he; have := encE_le_of_ip (ap := enc.addpathTx Fam.ipv4) hS e he; simp [alenOf] at this; omega) hpos
     have h16 := hc.hmax16
     rw [hc.hmax]
@@ -194,11 +212,21 @@ def unreachLegacyFam (p : Profile) (enc peer : Codec) (es0 : List Entry)
       cases r with
       | nil => exact absurd rfl hr
       | cons e rest => exact fitN_pos _ _ _ _ e rest hfit
-    have hb := fitN_bound enc.maxLen (5 + 2 + ap4 (enc.addpathTx Fam.ipv4)) (enc.addpathTx Fam.ipv4) 21 r
+    have hb := fitN_bound_slack enc.maxLen (5 + 2 + ap4 (enc.addpathTx Fam.ipv4)) 2 (enc.addpathTx Fam.ipv4) 21 r
       (by intro e he; have := encE_le_of_ip (ap := enc.addpathTx Fam.ipv4) hS e he; simp [alenOf] at this; omega) hpos
     have h16 := hc.hmax16
     exact parseUpdate_unreach_legacy od peer _ (enc.addpathTx Fam.ipv4) hc.hrx
       (take_ne_nil hr (Nat.pos_iff_ne_zero.mp hpos)) (hS.take _) (by omega)
+  hstruct := by
+    intro r hr hS
+    have hpos : 0 < fitN enc.maxLen (5 + 2 + ap4 (enc.addpathTx Fam.ipv4)) (enc.addpathTx Fam.ipv4) 21 r := by
+      cases r with
+      | nil => exact absurd rfl hr
+      | cons e rest => exact fitN_pos _ _ _ _ e rest hfit
+    have hb := fitN_bound_slack enc.maxLen (5 + 2 + ap4 (enc.addpathTx Fam.ipv4)) 2 (enc.addpathTx Fam.ipv4) 21 r
+      (by intro e he; have := encE_le_of_ip (ap := enc.addpathTx Fam.ipv4) hS e he; simp [alenOf] at this; omega) hpos
+    have h16 := hc.hmax16
+    exact unreach_legacy_struct _ (by omega)
 
 def unreachMpFam (p : Profile) (enc peer : Codec) (f : Fam) (v6 : Bool) (es0 : List Entry)
     (hmp : ¬ (f = Fam.ipv4 ∧ (!enc.extNh) = true)) (hf : isIpFam f = some v6)
@@ -224,7 +252,10 @@ def unreachMpFam (p : Profile) (enc peer : Codec) (f : Fam) (v6 : Bool) (es0 : L
       | cons e rest => exact fitN_pos _ _ _ _ e rest hfit
     have hb := fitN_bound enc.maxLen (17 + ap4 (enc.addpathTx f)) (enc.addpathTx f) (23 + 4 + 3) r
       (by intro e he; have := encE_le_of_ip (ap := enc.addpathTx f) hS e he; have := alenOf_le v6; omega) hpos
-    exact doEncode_unreach_mp p enc f es0 r hmp (encOk_of_ip v6 r hS) _ _ rfl rfl (by omega)
+    exact doEncode_unreach_mp p enc f es0 r hmp (encOk_of_ip v6 r hS)
+      (fitN enc.maxLen (17 + ap4 (enc.addpathTx f)) (enc.addpathTx f) (23 + 4 + 3) r)
+      ((r.take (fitN enc.maxLen (17 + ap4 (enc.addpathTx f)) (enc.addpathTx f) (23 + 4 + 3) r)).flatMap
+        (encE (enc.addpathTx f))) rfl rfl (by omega)
   hpos := by
     intro r hr _
     cases r with
@@ -254,7 +285,19 @@ def unreachMpFam (p : Profile) (enc peer : Codec) (f : Fam) (v6 : Bool) (es0 : L
       (by intro e he; have := encE_le_of_ip (ap := enc.addpathTx f) hS e he; have := alenOf_le v6; omega) hpos
     have h16 := hc.hmax16
     have hne := take_ne_nil hr (Nat.pos_iff_ne_zero.mp hpos)
-    have := parseUpdate_unreach_mp od peer f v6 _ (enc.addpathTx f) hc.hrx hf hfa hfs (hS.take _) (by omega)
+    have := parseUpdate_unreach_mp od peer f v6
+      (r.take (fitN enc.maxLen (17 + ap4 (enc.addpathTx f)) (enc.addpathTx f) (23 + 4 + 3) r))
+      (enc.addpathTx f) hc.hrx hf hfa hfs (hS.take _) (by omega)
     rw [this, if_neg hne]
+  hstruct := by
+    intro r hr hS
+    have hpos : 0 < fitN enc.maxLen (17 + ap4 (enc.addpathTx f)) (enc.addpathTx f) (23 + 4 + 3) r := by
+      cases r with
+      | nil => exact absurd rfl hr
+      | cons e rest => exact fitN_pos _ _ _ _ e rest hfit
+    have hb := fitN_bound enc.maxLen (17 + ap4 (enc.addpathTx f)) (enc.addpathTx f) (23 + 4 + 3) r
+      (by intro e he; have := encE_le_of_ip (ap := enc.addpathTx f) hS e he; have := alenOf_le v6; omega) hpos
+    have h16 := hc.hmax16
+    exact unreach_mp_struct f _ (by omega)
 
 end Rbgp.Enc
